@@ -23,6 +23,8 @@ Oracles after every call, returned or raised (never relaxed unless stated):
 """
 import os
 import shutil
+import threading
+import time
 
 import numpy as np
 
@@ -161,6 +163,7 @@ class Rig:
         self.probes = probes
         self.faults = faults
         self.steps = 0
+        self._thread_growth = 0
         self.sched_stats = Probes()
         self.digests = []
 
@@ -177,6 +180,8 @@ class Rig:
         for k, v in pobjs.items():
             before["param:" + k] = snap(v)
         ls_before = listing(self.sandbox)
+        cfg_before = snap(dask.config.config)
+        thr_before = threading.active_count()
         seam = FsSeam(self.ctx.trace_roots, self.sandbox, *(io_fault or (None, 0)))
         counter = LineCounter(self.ctx.trace_roots, cancel_at=cancel_at)
         sched = None
@@ -230,6 +235,27 @@ class Rig:
                     sig = f"C13|{tag}|input-mutated|arg={k.split(':')[-1]}|{opname}{suffix}"
                 raise Violation(sig, f"{opname} ({role}, {how}{', fault ' + fault_label if fault_label else ''}) modified "
                                      f"{'constructor parameter' if k.startswith('param:') else 'argument'} {d}", self.case.desc)
+        # ---- oracle 1b: process-global state the caller owns is as it was -- dask's global configuration (our own
+        # scheduler setting was a ``with`` block that has been left by now) and the set of running threads (a pool
+        # started per call and never closed: flagged when two consecutive calls each leave more threads alive, so a
+        # pool that is created once and kept is not an alarm)
+        cfg_after = snap(dask.config.config)
+        if cfg_after != cfg_before:
+            raise Violation(f"C13|{tag}|global-state-changed|dask.config|{opname}{suffix}",
+                            f"{opname} ({role}, {how}) changed dask's process-wide configuration: "
+                            f"{diff(cfg_before, cfg_after, 'dask.config')}", self.case.desc)
+        grew = threading.active_count() > thr_before
+        if grew:
+            t_end = time.monotonic() + 0.5
+            while time.monotonic() < t_end and threading.active_count() > thr_before:
+                time.sleep(0.01)
+            grew = threading.active_count() > thr_before
+        if grew and self._thread_growth >= 1 and status == "ok":
+            names = sorted(t.name for t in threading.enumerate())[:8]
+            raise Violation(f"C13|{tag}|threads-left-running|{opname}",
+                            f"{opname} ({role}) returned and left threads running, as the call before it did "
+                            f"({thr_before} -> {threading.active_count()} live threads, e.g. {names})", self.case.desc)
+        self._thread_growth = self._thread_growth + 1 if grew else 0
         # ---- oracle 2: nothing left behind
         ls_after = listing(self.sandbox)
         if ls_after != ls_before:
